@@ -171,12 +171,15 @@ class Oracle:
             return 1, vid + rest, {"t10_vendor_id": vid, "vendor_specific_id": rest}
         if kind == "eui8":
             cid, ext = self.rbytes(3), self.rbytes(5)
+            self.last_des_txt = "ty=i2,cid=i%d,ext=%s" % (int.from_bytes(cid, "big"), hx(ext))
             return 2, cid + ext, {"ieee_company_id": int.from_bytes(cid, "big"), "vendor_specific_extension_id": ext}
         if kind == "eui12":
             cid, ext, did = self.rbytes(3), self.rbytes(5), self.rbytes(4)
+            self.last_des_txt = "ty=i2,cid=i%d,ext=%s,dir=%s" % (int.from_bytes(cid, "big"), hx(ext), hx(did))
             return 2, cid + ext + did, {"ieee_company_id": int.from_bytes(cid, "big"), "vendor_specific_extension_id": ext, "directory_id": did}
         if kind == "eui16":
             ie, cid, ext = self.rbytes(8), self.rbytes(3), self.rbytes(5)
+            self.last_des_txt = "ty=i2,idext=%s,cid=i%d,ext=%s" % (hx(ie), int.from_bytes(cid, "big"), hx(ext))
             return 2, ie + cid + ext, {"identifier_extension": ie, "ieee_company_id": int.from_bytes(cid, "big"), "vendor_specific_extension_id": ext}
         if kind.startswith("naa"):
             n = int(kind[3])
@@ -223,7 +226,7 @@ class Oracle:
         e["designator_descriptors"] = descs
         whole = self.enc("vpd_header", v) + body
         if all(t is not None for t in dtxt):
-            # no EUI-64 designator: the whole page as the Lean oracle states it (Std.encVpd83, the encoder of
+            # the whole page as the Lean oracle states it (Std.encVpd83, the encoder of
             # C04.vpd_device_identification_decodes)
             lean = self.stdenc("vpd83", "{header={%s},descs=[%s]}" % (",".join("%s=i%d" % kv for kv in v.items()), ",".join(dtxt)))
             if lean != whole:
